@@ -964,84 +964,8 @@ func (r *Reader) parseDocument() error {
 		return fmt.Errorf("unmarshaling document.xml: %w", err)
 	}
 
-	// Parse elements in order using xml.Decoder
-	if err := r.parseBodyElementsInOrder(data); err != nil {
-		return fmt.Errorf("parsing body elements in order: %w", err)
-	}
-
 	// Process elements in document order
 	r.processElementsInOrder()
-
-	return nil
-}
-
-// parseBodyElementsInOrder parses body elements maintaining document order.
-func (r *Reader) parseBodyElementsInOrder(data []byte) error {
-	if r.document.Body == nil {
-		return nil
-	}
-
-	decoder := xml.NewDecoder(strings.NewReader(string(data)))
-	var inBody bool
-	var depth int // nesting depth below <w:body>; its direct children are at depth 1
-	var paraIndex, tableIndex int
-
-	for {
-		token, err := decoder.Token()
-		if err != nil {
-			break
-		}
-
-		switch t := token.(type) {
-		case xml.StartElement:
-			// Check if we're entering the body
-			if !inBody {
-				if t.Name.Local == "body" {
-					inBody = true
-					depth = 0
-				}
-				continue
-			}
-
-			// Body.Paragraphs and Body.Tables hold only the direct children of
-			// <w:body>, so only those may advance the indexes: paragraphs and
-			// tables nested in table cells belong to their table.
-			depth++
-			if depth != 1 {
-				continue
-			}
-
-			// Track elements in order
-			switch t.Name.Local {
-			case "p":
-				if paraIndex < len(r.document.Body.Paragraphs) {
-					r.document.Body.Elements = append(r.document.Body.Elements, bodyElement{
-						Type:      "paragraph",
-						Paragraph: &r.document.Body.Paragraphs[paraIndex],
-					})
-					paraIndex++
-				}
-			case "tbl":
-				if tableIndex < len(r.document.Body.Tables) {
-					r.document.Body.Elements = append(r.document.Body.Elements, bodyElement{
-						Type:  "table",
-						Table: &r.document.Body.Tables[tableIndex],
-					})
-					tableIndex++
-				}
-			}
-		case xml.EndElement:
-			if !inBody {
-				continue
-			}
-			if depth == 0 {
-				// closing </w:body>
-				inBody = false
-				continue
-			}
-			depth--
-		}
-	}
 
 	return nil
 }
